@@ -222,6 +222,11 @@ def C10_strip(n):
     return strip(n)
 
 
+def _rename(r, uid):
+    r.id = uid
+    return r
+
+
 def units(tier):
     us = []
     def wrap(uid, f):
@@ -243,6 +248,8 @@ def units(tier):
     wrap("C02.xgas_save.components_get_solved_moles_pressure_fugacity", SV.unit_xgas_save)
     wrap("C02.xexchange_save.sites_get_sorbed_amounts_and_charge", SV.unit_xexchange_save)
     wrap("C02.add_surface.saved_diffuse_layer_totals_are_added_back", SV.unit_add_surface_dl)
+    from props import c12_time as _TM
+    wrap("C02.kinetics.reacted_moles_capped_at_amount_present", lambda twin=False: _rename(_TM.unit_reactant_nonnegative(twin), "C02.kinetics.reacted_moles_capped_at_amount_present"))
     from props import c02_mbspecies as MBS
     wrap("C02.mb_for_species.same_H_O_charge_coefficients_for_aq_ex_surf", MBS.unit_mb_for_species)
     from props import c02_dispatch as DP
